@@ -180,6 +180,8 @@ def main():
     replay_helpers(rep, rng)
     cases = grid(rng, thorough)
     traces = record(rep, cases, rng)
+    from harness.c16 import real_runs          # real flows, the library's own loss, real optimisers (rows identified by value)
+    real_runs(rep, rng, 30 if thorough else 6, traces)
     stats = tracecheck.check(rep, "Trace_FitToData", "Trace_FitToData_I.cfg", traces, FTD_GUARDS, pid=PID,
                              describe=lambda tr: {k: tr["cfg"][k] for k in ("n", "batch", "nval", "maxep", "hascond")})
     rep.set("traces_validated_against_impl", len(traces))
